@@ -564,6 +564,10 @@ class AliasWorld(WorldBase):
         start = op['pat'] % len(PATTERNS)
         pats = pats[start:] + pats[:start]
         tried = 0
+        try:
+            seeded = 'seed' in inspect.signature(attr).parameters
+        except (TypeError, ValueError):
+            seeded = False
         for pi in (pats if op.get('sweep') else pats[:12]):
             spec = PATTERNS[pi]
             args, kw = [], {}
@@ -572,6 +576,8 @@ class AliasWorld(WorldBase):
                     kw.update(sp['kw'])
                 else:
                     args.append(self._arg(sp, e))
+            if seeded:
+                kw['seed'] = 7  # the library's own randomness is a seam too: never left to np.random's global state
             st, r = call(attr, *args, **kw)
             tried += 1
             if st == 'ok':
